@@ -37,7 +37,7 @@ theorem cloneNode_full (f : Forest) (inv : f.Inv) (node : Nat) (src : HTree)
       f'.allHandles.Nodup := by
   obtain ⟨f', h1, h2, h3, ⟨h4, h5, h6⟩, h7⟩ := cloneNode_spec f inv node src hsrc
   have hh := copyRoot_handles f.consolidation f.next src
-  have hroot := hh _ (handle_mem_handles _)
+  have hroot := hh _ (fc_handle_mem_handles _)
   refine ⟨(copyRoot f.consolidation f.next src).1, f', h1, h2, ?_, ?_, ?_, ?_, h4, h5, h6, ?_⟩
   · unfold Forest.get?
     rw [h2, findList?_append_of_not_mem]
